@@ -58,18 +58,25 @@ def checker (model : Bool) : Checker where
       | none, none => false
     match ws with
     | ["new", kind, cname, capS] =>
-      match ofName cname, parseInt? capS, obsCap with
-      | some cmp, some capacity, some c =>
+      match ofName cname, parseInt? capS with
+      | some cmp, some capacity =>
         if kind ≠ "pq" ∧ kind ≠ "pqpub" then (none, some s!"bad-kind {kind}") else
         let q := PQ.new capacity
         let st' : St := { cmp := cmp, q := q, capacity := Spec.normCap capacity, bag := [] }
+        -- `capacity=na`: Cap() is not reachable (public wrapper observed black-box)
+        let capOk : Bool := field obs "capacity" == some "na" || fieldInt obs "capacity" == some (Spec.normCap capacity)
         if resultTok obs ≠ "ok" then (none, some s!"constructor failed: {obs}")
         else if obsLen ≠ some 0 then (some st', some "constructor: queue not empty")
-        else if fieldInt obs "capacity" ≠ some (Spec.normCap capacity) then (some st', some s!"constructor: Cap() want {Spec.normCap capacity}")
-        else if model && !sameData q.data.vals then (some st', some s!"constructor: data want {renderData q.data.vals}")
-        else if model && q.data.cap ≠ c then (some st', some s!"constructor: slice capacity want {q.data.cap} got {c}")
+        else if !capOk then (some st', some s!"constructor: Cap() want {Spec.normCap capacity}")
+        else if model then
+          match obsCap with
+          | none => (some st', some "constructor: no white-box observation")
+          | some c =>
+            if !sameData q.data.vals then (some st', some s!"constructor: data want {renderData q.data.vals}")
+            else if q.data.cap ≠ c then (some st', some s!"constructor: slice capacity want {q.data.cap} got {c}")
+            else (some st', none)
         else (some st', none)
-      | _, _, _ => (none, some s!"bad-op-or-observation {op}")
+      | _, _ => (none, some s!"bad-op-or-observation {op}")
     | _ =>
       match st, parseOp ws with
       | none, _ => (none, some "no-container")
@@ -93,6 +100,11 @@ def checker (model : Bool) : Checker where
             else if obsLen ≠ some q'.len then (some { x with q := q' }, some s!"Len() want {q'.len}")
             else (some { x with q := q' }, none)
         else
+          -- `na`: Cap()/IsBoundless() are not reachable through the public wrapper when it is observed
+          -- black-box; nothing to check, nothing changes
+          if got = "na" ∧ (o = .cap ∨ o = .boundless) then
+            (if obsLen ≠ some (x.bag.length : Int) then (st, some s!"Len() want {x.bag.length}") else (st, none))
+          else
           match parseOut got o with
           | none => (st, some s!"result {got} is not a possible result of this call")
           | some out =>
